@@ -17,6 +17,8 @@ pub mod c05_isolation;
 pub mod c06_registry;
 pub mod c07_access_disconnect;
 pub mod c07_tcp;
+pub mod c08_revocation;
+pub mod c25_reprobe;
 pub mod relay_history;
 pub mod c16_take_segments;
 
@@ -27,5 +29,7 @@ pub const REGISTRY: &[Prop] = &[
     Prop { id: "C05", level: "exploration", watchdog_quick_s: 900, watchdog_thorough_s: 7200, run: c05_isolation::run },
     Prop { id: "C06", level: "exploration", watchdog_quick_s: 900, watchdog_thorough_s: 7200, run: c06_registry::run },
     Prop { id: "C07", level: "fault_enumeration", watchdog_quick_s: 1200, watchdog_thorough_s: 7200, run: c07_access_disconnect::run },
+    Prop { id: "C08", level: "exploration", watchdog_quick_s: 1500, watchdog_thorough_s: 7200, run: c08_revocation::run },
     Prop { id: "C16", level: "exploration", watchdog_quick_s: 600, watchdog_thorough_s: 3600, run: c16_take_segments::run },
+    Prop { id: "C25", level: "exploration", watchdog_quick_s: 1800, watchdog_thorough_s: 7200, run: c25_reprobe::run },
 ];
